@@ -57,7 +57,10 @@ def _scratch_dir():
     """One scratch directory per harness process (removed at exit) for the file collector's output."""
     pid = os.getpid()
     if pid not in _SCRATCH:
-        d = tempfile.mkdtemp(prefix='c06-')
+        # worker processes leave without running exit handlers: their directories live inside the one the run made (and
+        # removes when it ends)
+        parent = os.environ.get('C06_SCRATCH_PARENT')
+        d = tempfile.mkdtemp(prefix='c06-', dir=parent if parent and os.path.isdir(parent) else None)
         _SCRATCH.clear()
         _SCRATCH[pid] = d
         atexit.register(shutil.rmtree, d, ignore_errors=True)
@@ -754,6 +757,16 @@ def reload_case(case):
 
 
 def run(ctx):
+    parent = tempfile.mkdtemp(prefix='c06-run-')
+    os.environ['C06_SCRATCH_PARENT'] = parent
+    try:
+        _run(ctx)
+    finally:
+        os.environ.pop('C06_SCRATCH_PARENT', None)
+        shutil.rmtree(parent, ignore_errors=True)
+
+
+def _run(ctx):
     for procs in (1, 2):
         for limit in (3, 10):
             case = {'leg': 'batch', 'procs': procs, 'limit': limit}
